@@ -319,9 +319,15 @@ def c19_3(ctx):
             a1s = unparse(s_[0][2]) if len(s_) == 1 else a1s
             if len(s_) == 1 and isinstance(s_[0][2], ast.Call):
                 a1s = unparse(s_[0][2])
-        ok = unparse(a0) == 'version.parse(isa_model.isa_version)' and a1s == 'version.parse(version_str)' and "COMPARISON_ACTIONS[self._operator_str]" in unparse(chk[0].func)
-        vs = reaching_def(ctx, init, 'version_str', chk[0])
-        ok = ok and vs is not None and 'group(3)' in unparse(vs)
+        # the right-hand side is version.parse(<the text of pattern group 3>), whether or not that text has a name of its own
+        a1e = ast.parse(a1s, mode='eval').body
+        req_txt = None
+        if isinstance(a1e, ast.Call) and unparse(a1e.func) == 'version.parse' and len(a1e.args) == 1:
+            req_txt = a1e.args[0]
+            if isinstance(req_txt, ast.Name):
+                req_txt = reaching_def(ctx, init, req_txt.id, chk[0])
+        ok = unparse(a0) == 'version.parse(isa_model.isa_version)' and req_txt is not None and 'group(3)' in unparse(req_txt) \
+            and "COMPARISON_ACTIONS[self._operator_str]" in unparse(chk[0].func)
         os_ = self_attr_stores(init.node, '_operator_str')
         ok = ok and len(os_) == 1 and 'group(2)' in unparse(os_[0][2])
     ctx.check(ok, 'require:compares-model-with-required', init.site(chk[0]) if chk else init.site(),
